@@ -167,3 +167,110 @@ Section Message.
         unfold n. rewrite Nat2Z.id, firstn_app_exact, skipn_app_exact. reflexivity.
   Qed.
 End Message.
+
+(* ---------- the same for a chunked response ---------- *)
+
+Lemma hdel_none k m : hget k m = None -> hdel k m = m.
+Proof.
+  induction m as [|[k' vs] r IH]; [reflexivity|]. cbn [hget hdel].
+  destruct (bytes_eqb k k'); [discriminate|]. intros H. now rewrite IH.
+Qed.
+
+Lemma hdel_hadd_new k v m : hget k m = None -> hdel k (hadd k v m) = m.
+Proof.
+  induction m as [|[k' vs] r IH]; cbn [hget hadd hdel].
+  - now rewrite bytes_eqb_refl.
+  - destruct (bytes_eqb k k') eqn:E; [discriminate|]. cbn [hdel]. rewrite E. intros H. now rewrite IH.
+Qed.
+
+Definition te_field (v : bytes) : hfield := {| hf_name := bs "Transfer-Encoding"; hf_first := v; hf_conts := [] |}.
+
+Section ChunkedMessage.
+  Variables (meth : bytes) (bufsize : nat).
+  Variables (d1 d2 d3 : byte) (reason : bytes) (fs : list hfield) (te : bytes).
+  Variables (cs : list (bytes * bytes)) (l0 rest : bytes).
+  Hypothesis Hmeth : is_head meth = false.
+  Hypothesis H1 : is_digit d1 = true.
+  Hypothesis H2 : is_digit d2 = true.
+  Hypothesis H3 : is_digit d3 = true.
+  Let code : Z := (100 * dval d1 + 10 * dval d2 + dval d3)%Z.
+  Hypothesis Hbody : body_allowed_for_status code = true.
+  Hypothesis Hreason : mem_byte LF reason = false.
+  Hypothesis Hfields : Forall field_ok fs.
+  Hypothesis Hplain : Forall plain_field fs.
+  Hypothesis Hte : to_lower te = bs "chunked".        (* any letter case *)
+  Hypothesis Hte_ok : piece_ok te.
+  Hypothesis Hchunks : chunks_ok bufsize 0 cs.
+  Hypothesis Hlast : size_line_ok bufsize l0 0.
+
+  Let status : bytes := [d1; d2; d3] ++ SP :: reason.
+  Let wire : bytes :=
+    bs "HTTP/1.1" ++ SP :: status ++ CRLF ++ render_fields (fs ++ [te_field te]) ++ CRLF ++
+    render_chunks cs ++ l0 ++ CRLF ++ CRLF ++ rest.
+
+  Theorem response_round_trip_chunked :
+    parse_response meth bufsize wire =
+      Accepted {| r_proto := bs "HTTP/1.1"; r_code := code; r_status := status;
+                  r_header := header_of_fields fs; r_content_length := (-1)%Z;
+                  r_chunked := true; r_close := false; r_framing := FrChunked;
+                  r_trailer_declared := [] |}
+               {| b_data := concat (map snd cs); b_end := BOk; b_trailer := []; b_rest := rest |}.
+  Proof.
+    set (h0 := header_of_fields fs).
+    assert (N : forall k, framing_name k = true -> hget k h0 = None).
+    { intros k Hk. unfold h0, header_of_fields. apply hget_fields_none; [reflexivity|].
+      apply plain_not; [|assumption]. intros x Hx. apply bytes_eqb_eq in Hx. now subst x. }
+    set (h := hadd K_TE te h0).
+    assert (Gte : hget K_TE h = Some [te]) by (apply hget_hadd_same_new; now apply N).
+    assert (Gconn : hget K_CONNECTION h = None) by (unfold h; rewrite hget_hadd_other by reflexivity; now apply N).
+    assert (Gpr : hget K_PRAGMA h = None) by (unfold h; rewrite hget_hadd_other by reflexivity; now apply N).
+    assert (Gdel : hdel K_TE h = h0) by (apply hdel_hadd_new; now apply N).
+    assert (Gcl : hget K_CL h0 = None) by now apply N.
+    assert (Gtr : hget K_TRAILER h0 = None) by now apply N.
+    unfold parse_response, read_response_head, wire.
+    replace (bs "HTTP/1.1" ++ SP :: status ++ CRLF ++ render_fields (fs ++ [te_field te]) ++ CRLF ++
+             render_chunks cs ++ l0 ++ CRLF ++ CRLF ++ rest)
+      with ((bs "HTTP/1.1" ++ SP :: status) ++ CRLF ++ (render_fields (fs ++ [te_field te]) ++ CRLF ++
+             render_chunks cs ++ l0 ++ CRLF ++ CRLF ++ rest))
+      by (now rewrite <- app_assoc).
+    rewrite read_line_crlf.
+    2:{ unfold status. rewrite mem_byte_app. cbn [app]. rewrite !mem_byte_cons, Hreason.
+        assert (Hd : forall d, is_digit d = true -> beqb LF d = false).
+        { clear. intros d. destruct d; vm_compute; intros H; try discriminate; reflexivity. }
+        rewrite (Hd _ H1), (Hd _ H2), (Hd _ H3). reflexivity. }
+    change (bs "HTTP/1.1" ++ SP :: status)
+      with (bs "HTTP/" ++ ["1"%byte; "."%byte; "1"%byte] ++ SP :: [d1; d2; d3] ++ SP :: reason).
+    rewrite status_line_round_trip by (assumption || reflexivity).
+    rewrite mime_header_round_trip.
+    2:{ apply Forall_app. split; [assumption|]. constructor; [|constructor].
+        unfold field_ok, te_field. cbn [hf_name hf_first hf_conts].
+        repeat split; try discriminate; try reflexivity; try apply Hte_ok. constructor. }
+    assert (Hh : header_of_fields (fs ++ [te_field te]) = h).
+    { unfold header_of_fields, h, h0. rewrite fold_left_app. cbn [fold_left].
+      unfold field_value, te_field. cbn [hf_name hf_first hf_conts flat_map]. rewrite app_nil_r. reflexivity. }
+    rewrite Hh.
+    unfold fix_pragma_cache_control. rewrite Gpr.
+    unfold read_transfer. cbn [sl_major sl_minor sl_code sl_proto sl_status].
+    change (dval "1"%byte) with 1%Z.
+    rewrite should_close_table. change (1 <? 1)%Z with false. change ((1 =? 1)%Z && (1 =? 0)%Z) with false.
+    cbn iota. unfold has_close, conn_values. rewrite Gconn.
+    change (header_values_contain_token [] (bs "close")) with false. cbn iota.
+    change ((1 =? 0)%Z && (1 =? 0)%Z) with false. cbn iota.
+    rewrite transfer_encoding_table, Gte. change (negb (proto_at_least_1_1 1 1)) with false. cbn iota.
+    rewrite Hte. change (bytes_eqb (bs "chunked") (bs "chunked")) with true. cbn iota. rewrite Gdel.
+    unfold fix_length. rewrite Gcl. cbn [is_nil]. rewrite Hmeth. fold code.
+    assert (Hc1 : (code / 100 =? 1)%Z = false /\ ((code =? 204)%Z || (code =? 304)%Z) = false).
+    { unfold body_allowed_for_status in Hbody. apply negb_true_iff in Hbody.
+      rewrite div100_is_1xx. apply orb_false_iff in Hbody as [Hb Hc]. apply orb_false_iff in Hb as [Ha Hb].
+      rewrite Ha, Hb, Hc. auto. }
+    destruct Hc1 as [-> ->]. rewrite (hdel_none K_CL h0 Gcl).
+    unfold fix_trailer. rewrite Gtr. cbn [andb negb orb Z.eqb].
+    rewrite Hbody. cbn [negb orb].
+    f_equal.
+    unfold read_body. cbn [r_framing r_trailer_declared].
+    replace (render_chunks cs ++ l0 ++ CRLF ++ CRLF ++ rest)
+      with (render_chunks cs ++ l0 ++ CRLF ++ (CRLF ++ rest)) by reflexivity.
+    rewrite chunked_round_trip by assumption.
+    cbn [read_trailer CRLF app]. rewrite !beqb_refl. reflexivity.
+  Qed.
+End ChunkedMessage.
